@@ -464,7 +464,10 @@ class Interp:
                          dict(fn=frame.body.name, bb=bi, span=span, proj=proj, value=av,
                               old=av_get(self.load_root(state, root), proj, self.uni), stack=frame.stack))
         old = self.load_root(state, root)
-        new = av_set(old, proj, av, self.uni) if proj else av
+        if root[0] == "box":
+            new = av      # MaybeUninit / ManuallyDrop wrappers around the boxed value are transparent
+        else:
+            new = av_set(old, proj, av, self.uni) if proj else av
         self.store_root(state, root, new)
         if root[0] != "local":
             self.drop_links(state, root[0], root)
@@ -506,7 +509,19 @@ class Interp:
             self.rec.put("write_jobfield", self.sitekey(frame, bi, si),
                          dict(fn=frame.body.name, bb=bi, span=span, key=(root[1], root[2]) if root else (None, frozenset()),
                               field=fld, proj=proj, value=av, cells=self.cells(state), stack=frame.stack))
-            if root is None:
+            if root is None and fld is not None:
+                # a store to one field of an unknown job: that field of every known job may have changed
+                for hk in list(state.heap.keys()):
+                    if hk[0] == "job":
+                        cell = state.heap[hk]
+                        if cell[0] != "adt":
+                            continue
+                        fs = list(adt_variants(cell)[0])
+                        if fld < len(fs):
+                            fs[fld] = join(strip_links(fs[fld]), av) if len(proj) <= 1 else TOP
+                            state.heap[hk] = adt(L.nodeinfo, {0: tuple(fs)})
+                self.drop_links(state, "job")
+            elif root is None:
                 self.havoc_jobs(state)
 
     # ---- operands / rvalues ---------------------------------------------------------------
